@@ -8,10 +8,13 @@ import Dcg.Proofs.TemplateLexDoc
 context and evaluate, on the interpolated values, the decidable forms of the hypotheses that the
 template theorems assume and the name invariant:
 
-  reply: `ok <hex text> <inv> <block> <lex>` where each of the three is `ok` or
+  reply: `ok <hex text> <inv> <block> <lex> <hash>` where each of the four is `ok` or
          `bad:<hex site expression>:<hex value>` (first violating slot) —
          inv   = `Model.TemplateInv.siteInvB`   (name sites carry identifiers, type hints are not empty),
-         block = `Proofs.TemplateBlockTop.blockHypB` on non-docstring slots (`ValuesOK`, C01),
+         block = `Proofs.TemplateBlockTop.blockHypExceptHashB` on non-docstring slots (`ValuesOK`, C01, all but
+                 the `#` clause; `blockHypB_split`),
+         hash  = a value of a class-header site contains `#` (the rendering is outside the scope of the class
+                 theorems: the block automaton reads it as a comment),
          lex   = `Proofs.TemplateLex.lexHypB` on non-docstring slots (`NeutralValues`, C10);
   or the error replies of `tpl.render`. -/
 namespace Dcg.Driver.TemplateInv
@@ -30,8 +33,9 @@ def handlers : List (String × Handler) := [
          | some t => (match renderTemplate kvs t with
            | .ok o =>
              "ok " ++ encodeStr o.text ++ " " ++ verdict (firstBadSlot o) ++ " " ++
-               verdict (o.slots.find? (fun p => !(slotKind p.1 == .doc || Dcg.Proofs.TemplateBlockTop.blockHypB p.1 p.2))) ++ " " ++
-               verdict (o.slots.find? (fun p => !(Dcg.Proofs.TemplateLexDoc.docSite p.1 || Dcg.Proofs.TemplateLex.lexHypB p.1 p.2)))
+               verdict (o.slots.find? (fun p => !(slotKind p.1 == .doc || Dcg.Proofs.TemplateBlockTop.blockHypExceptHashB p.1 p.2))) ++ " " ++
+               verdict (o.slots.find? (fun p => !(Dcg.Proofs.TemplateLexDoc.docSite p.1 || Dcg.Proofs.TemplateLex.lexHypB p.1 p.2))) ++ " " ++
+               verdict (o.slots.find? (fun p => Dcg.Proofs.TemplateBlockTop.headerHashB p.1 p.2))
            | .error e => Dcg.Driver.Template.errStr e)
          | none => "err no-such-template")
       | _, _ => "err args"
